@@ -182,6 +182,16 @@ def r_typemap(ctx):
                           % (name, why, got, ok))
 
 
+_MF = {}
+
+
+def MODULE_FNS(f):
+    """module-level functions of codegen.rs (helpers a refactoring may extract are interpreted)"""
+    if id(f) not in _MF:
+        _MF[id(f)] = {x.name: x.node for x in f.fns(F) if x.impl_self is None and not x.in_test}
+    return _MF[id(f)]
+
+
 def r_optional(ctx):
     rid = "C17.optional"
     ctx.rule(rid, "value_member_key_to_field: a named member is generated as an optional field (the one that is left out when None) exactly "
@@ -215,6 +225,7 @@ def r_optional(ctx):
                     return absint.MutList()
                 return NotImplemented
             it = Interp(env={"vmke": vm, "comments": OPAQUE}, on_call=on_call)
+            it.resolve_fn = lambda nm: MODULE_FNS(f).get(nm) if "::" not in nm else None
             try:
                 try:
                     res = it.block(fi.node["body"])
@@ -233,6 +244,9 @@ def r_optional(ctx):
             rt = rt[1] if isinstance(rt, tuple) and rt[:1] == ("str",) else getattr(rt, "s", repr(rt))
             want_t = "Vec<%s>" % ty if occ == "ZeroOrMore" else ty
             ctx.site(rid, key, F, fi.line, {"is_optional": fld.get("is_optional"), "rust_type": rt})
+            if not isinstance(fld.get("is_optional"), bool):
+                ctx.incomplete_msg(rid, "%s: is_optional evaluates to %r" % (key, fld.get("is_optional")))
+                continue
             if fld.get("is_optional") is not (occ == "Optional"):
                 ctx.violation(rid, "optional|occurrence %s|%s" % (occ or "none", "nullable" if ty.startswith("Option") else "plain"), F, fi.line,
                               "a member with occurrence %s and type %s is generated with is_optional = %r: %s"
